@@ -291,10 +291,11 @@ func evaluate(srv *pvpeg.Server, pigeon, dir string, seed int64, i int, av pvpeg
 	if r.Intn(5) == 0 {
 		add("-receiver-name", []string{"c", "p", "cur", "self", "ç"}[r.Intn(5)])
 	}
-	if r.Intn(5) == 0 {
+	if r.Intn(3) == 0 {
 		var names []string
-		for k := 1 + r.Intn(2); k > 0; k-- {
-			if len(f.rules) > 0 && r.Intn(3) > 0 {
+		allValid := r.Intn(10) < 7
+		for k := 1 + r.Intn(3); k > 0; k-- {
+			if len(f.rules) > 0 && (allValid || r.Intn(3) > 0) {
 				names = append(names, f.rules[r.Intn(len(f.rules))])
 			} else {
 				names = append(names, []string{"Nope", "", "A", "x y"}[r.Intn(4)])
